@@ -379,6 +379,77 @@ def list_exports_are_snapshots(g):
 EXTRA_BASELINE = {}
 
 
+def _deep_holders(g):
+    """every nested mutable value held in graph / node / edge metadata (the lists and inner dictionaries)"""
+    hs = []
+
+    def walk(v):
+        if isinstance(v, dict):
+            for x in v.values():
+                walk(x)
+            hs.append(v)
+        elif isinstance(v, list):
+            for x in v:
+                walk(x)
+            hs.append(v)
+    walk(g.meta)
+    for n in g.get_nodes():
+        walk(n.meta)
+    for e in g.get_edges():
+        walk(e.meta)
+    return hs
+
+
+def copies_of_mixed_graphs_do_not_alias(rng):
+    """copy(), copy.copy, copy.deepcopy, from_dict(to_dict()) and the skeleton round trip of a graph with edges of ALL types (plain and
+    time series), nested metadata on the graph, on every node and on every edge: no nested value of the result is the same object as
+    one of the source, and scribbling over the result leaves the source unchanged."""
+    import copy as _copy
+    from cai_causal_graph import Skeleton
+    from cai_causal_graph.type_definitions import EdgeType
+    problems = []
+    for kind in ('Plain', 'TS'):
+        g = (CausalGraph if kind == 'Plain' else TimeSeriesCausalGraph)(meta={'a': [1, {'b': 2}], 'tag': 'g'})
+        names = ['a', 'b', 'c', 'd', 'e'] if kind == 'Plain' else ['x', 'y', 'z', 'x lag(n=1)', 'y lag(n=1)']
+        for n in names:
+            g.add_node(n, meta={'a': [1, {'b': n}], 'tag': n} if rng.random() < 0.8 else {})
+        types = list(EdgeType)
+        rng.shuffle(types)
+        k = 0
+        for i in range(len(names)):
+            for j in range(i + 1, len(names)):
+                if rng.random() < 0.6:
+                    a, b = (names[j], names[i]) if kind == 'TS' and ' lag' in names[j] else (names[i], names[j])
+                    try:
+                        g.add_edge(a, b, edge_type=types[k % len(types)], meta={'a': [k, {'b': k}], 'tag': f'{a}|{b}'}, validate=False)
+                        k += 1
+                    except Exception:  # noqa: BLE001
+                        pass
+        ops = {'copy()': lambda x: x.copy(), 'copy(include_meta=True)': lambda x: x.copy(include_meta=True), 'copy.copy': _copy.copy,
+               'copy.deepcopy': _copy.deepcopy, 'from_dict(to_dict())': lambda x: type(x).from_dict(x.to_dict()),
+               'from_dict(deepcopy(to_dict()))': lambda x: type(x).from_dict(_copy.deepcopy(x.to_dict()))}
+        for name, f in ops.items():
+            before = snapshot(g)
+            try:
+                h = f(g)
+            except Exception as e:  # noqa: BLE001
+                problems.append(f'{name} raised {type(e).__name__} on a {kind} graph with every edge type')
+                continue
+            mine = {id(v) for v in _deep_holders(g)}
+            shared = [v for v in _deep_holders(h) if id(v) in mine]
+            if shared:
+                problems.append(f'{name} of a {kind} graph shares {len(shared)} nested metadata value(s) with its source, e.g. {shared[0]!r}')
+                continue
+            for v in _deep_holders(h):
+                if isinstance(v, list):
+                    v.append('MUT')
+                else:
+                    v['MUT'] = 1
+            if snapshot(g) != before:
+                problems.append(f'scribbling over the result of {name} changed the source ({kind})')
+    return problems
+
+
 # arrays, dictionaries of arrays and networkx graphs the graph hands out
 ARRAY_EXPORTS = {
     'adjacency_matrix': lambda g: g.adjacency_matrix, 'to_numpy()': lambda g: g.to_numpy(), 'to_networkx()': lambda g: g.to_networkx(),
@@ -525,6 +596,10 @@ def check(run, tier, seed):
             if viol < 3:
                 viol += 1
                 run.violation(dict(operation='transplant', why=why, seed=seed, iteration=it), note=why)
+        for why in copies_of_mixed_graphs_do_not_alias(rng):
+            if viol < 3:
+                viol += 1
+                run.violation(dict(operation='mixed copy', why=why, seed=seed, iteration=it), note=why)
         for gx in (ts, pl):
             for why in list_exports_are_snapshots(gx):
                 if viol < 3:
@@ -596,6 +671,14 @@ def replay(run, path):
         for it in range(40):
             ts, pl = make_graphs(rng)
             for why in transplants_do_not_alias(pl, rng):
+                run.violation(dict(c, why=why), note=why)
+                print('replayed', path, 'violations', len(run.violations))
+                return 1
+        print('replayed', path, 'violations', 0)
+        return 0
+    if c.get('operation') == 'mixed copy':
+        for it in range(40):
+            for why in copies_of_mixed_graphs_do_not_alias(rng):
                 run.violation(dict(c, why=why), note=why)
                 print('replayed', path, 'violations', len(run.violations))
                 return 1
